@@ -29,7 +29,7 @@ RULE = ('pairs of tables with <= 4 rows per side, 1-2 key columns (occasionally 
         'case/underscore variants and invalid names) x explicit partition layouts of each side over 1..3 partitions '
         '(including empty partitions); exhaustive scopes: all pairs of tables with <= 2 rows per side over 2 key '
         'values x 7 join types (1 key column; 2 key columns over 2x2 key values) x partition counts 1..3 of each '
-        'side (all layouts in the thorough tier); a malformed stream: null keys, `on` names missing on one side, '
+        'side (all layouts in the thorough tier; there also <= 3 rows per side); a malformed stream: null keys, `on` names missing on one side, '
         'duplicate column names within a side; non-trivial = both sides non-empty and the join succeeded; '
         'distinct by canonical JSON of the case')
 ASSUMPTIONS = [
@@ -265,10 +265,10 @@ def even_layout(rows, n):
     return [list(rows[i * len(rows) // n:(i + 1) * len(rows) // n]) for i in range(n)]
 
 
-def exhaustive_tables(keyvals, side):
-    """All tables with <= 2 rows whose keys range over keyvals; payload column distinguishes the rows."""
+def exhaustive_tables(keyvals, side, maxrows=2):
+    """All tables with <= maxrows rows whose keys range over keyvals; payload column distinguishes the rows."""
     out = []
-    for n in range(3):
+    for n in range(maxrows + 1):
         for ks in itertools.product(keyvals, repeat=n):
             out.append([tuple(k) + (f'{side}{i}',) for i, k in enumerate(ks)])
     return out
@@ -297,6 +297,14 @@ def gen_exhaustive(rng, tier):
                         cases.append((0, h, ['k'] if rng.random() < 0.7 else 'k', (lf, pl), (rf, pr)))
             nl, nr = rng.randint(1, 3), rng.randint(1, 3)
             cases.append((1, 'cross', None, (lf, random_layout(rng, L, nl)), (rf, random_layout(rng, R, nr))))
+    if thorough:
+        # <= 3 rows per side over the same 2 key values, random layouts
+        for L in exhaustive_tables([(1,), (2,)], 'l', 3):
+            for R in exhaustive_tables([(1,), (2,)], 'r', 3):
+                if len(L) < 3 and len(R) < 3:
+                    continue
+                for h in SIX:
+                    cases.append((0, h, ['k'], (lf, random_layout(rng, L)), (rf, random_layout(rng, R))))
     # 2 key columns, keys in {1,2} x {'x','y'}
     lf2 = [('k', 0, True), ('a', 1, True), ('j', 1, True)]
     rf2 = [('j', 1, True), ('k', 0, True), ('b', 1, True)]
@@ -417,8 +425,19 @@ DOCTEST = (0, 'left_outer', 'id',
             [[('test_value', 1, 'right')], [('test_value', 2, 'right')]]))
 
 
+# minimal inputs of the two defects repaired in /repo (f381172: duplicate keys collapsed in the inner join;
+# 7a47d84: semi/anti joins declared the right side's columns)
+_KF = [('k', 0, True), ('a', 1, True)]
+_KG = [('k', 0, True), ('b', 1, True)]
+REGRESSIONS = [
+    (0, 'inner', ['k'], (_KF, [[(1, 'a0'), (1, 'a1')]]), (_KG, [[(1, 'b0')], [(1, 'b1')]])),
+    (0, 'leftsemi', ['k'], (_KF, [[(1, 'a0'), (2, 'a1')]]), (_KG, [[(1, 'b0'), (1, 'b1')]])),
+    (0, 'leftanti', ['k'], (_KF, [[(1, 'a0')], [(2, 'a1')]]), (_KG, [[(1, 'b0'), (1, 'b1')]])),
+]
+
+
 def generate(rng, tier):
-    cases = [DOCTEST]
+    cases = [DOCTEST] + REGRESSIONS
     for h in SIX:
         cases.append((0, h) + DOCTEST[2:])
     cases.append((1, 'cross', None) + DOCTEST[3:])
